@@ -742,8 +742,10 @@ Proof.
   destruct (regions_of_spec d cs cs rgs Hcs NDc R) as (F & _ & _). rewrite Forall_forall in F.
   assert (Start : forall a i r m b, nth_error (d_rows d) i = Some r -> dr_cells r = a ++ m :: b -> In (p_id m) cs ->
             opt_mem (pred_of a) cs = false -> exists e, In e rgs /\ In m (snd e)).
-  { intros a i r m b Hn Hc Hm Op. eexists. split.
-    - apply (regions_of_incl d cs cs rgs (p_id m) _ R Hm); [unfold add_cell; rewrite (find_row_at d i r a m b ND Hn Hc), Op; reflexivity|left; reflexivity].
+  { intros a i r m b Hn Hc Hm Op. pose proof (find_row_at d i r a m b ND Hn Hc) as Fd.
+    assert (A : exists g, add_cell d cs (p_id m) = Some [(g, fst (run_of cs (m :: b)))]) by (unfold add_cell; rewrite Fd, Op; eexists; reflexivity).
+    destruct A as [g A]. exists (g, fst (run_of cs (m :: b))). split.
+    - apply (regions_of_incl d cs cs rgs (p_id m) _ R Hm A). left. reflexivity.
     - cbn [snd fst run_of]. rewrite (Hcs _ Hm). left. reflexivity. }
   assert (G : forall a i r m b, nth_error (d_rows d) i = Some r -> dr_cells r = a ++ m :: b -> In (p_id m) cs ->
             exists e, In e rgs /\ In m (snd e)).
